@@ -1,4 +1,4 @@
-//! usage: replay-driver kind=<slice|vec|array|range|iter> [len=N] [s=A e=B] [c=C] ops=<op>[,<op>...]
+//! usage: replay-driver kind=<slice|cloned|copied|vec|array|range|iter> [len=N] [s=A e=B] [c=C] ops=<op>[,<op>...]
 //!   ops: next | chunk:<n>[:<take>] | buffered:<n>[:<take>] | skip | len | seq | drop | clone
 //!   c   : value stored into the position counter before the first operation (the state a havoc'd atomic result corresponds to;
 //!         positions below min(c, len) count as "moved out earlier"); for kind=iter: number of single pulls made beforehand
@@ -29,14 +29,16 @@ impl Model {
 }
 
 #[derive(Clone, Debug)]
-enum Op { Next, Chunk(usize, usize), Buffered(usize, usize), Skip, Len, Seq, DropIt }
+enum Op { Next, Chunk(usize, usize), Buffered(usize, usize), Skip, Len, Seq, DropIt, Values, Ids, ChunkFold(usize, usize) }
 
 fn parse_ops(s: &str) -> Vec<Op> {
     s.split(',').filter(|x| !x.is_empty()).map(|o| {
         let p: Vec<&str> = o.split(':').collect();
         let num = |i: usize, d: usize| p.get(i).map(|x| if *x == "MAX" { usize::MAX } else { x.parse().expect("number") }).unwrap_or(d);
         match p[0] { "next" => Op::Next, "chunk" => Op::Chunk(num(1, 1), num(2, usize::MAX)), "buffered" => Op::Buffered(num(1, 1), num(2, usize::MAX)),
-                     "skip" => Op::Skip, "len" => Op::Len, "seq" => Op::Seq, "drop" => Op::DropIt, x => panic!("unknown op {}", x) }
+                     "skip" => Op::Skip, "len" => Op::Len, "seq" => Op::Seq, "drop" => Op::DropIt,
+                     // one item through the `for`-loop adaptors; a chunk of n consumed k items with next() and the rest by internal iteration
+                     "values" => Op::Values, "ids" => Op::Ids, "chunkfold" => Op::ChunkFold(num(1, 1), num(2, 0)), x => panic!("unknown op {}", x) }
     }).collect()
 }
 
@@ -75,6 +77,34 @@ where C::Item: std::fmt::Debug {
                     match buf.as_mut().unwrap().next() { Some(mut ch) => check(ch.begin_idx, &mut ch.values), None => if b < e { fail(format!("buffered pull reported the end although position {} is undelivered", b)); } }
                 } else {
                     match i.next_chunk(*n) { Some(mut ch) => check(ch.begin_idx, &mut ch.values), None => if b < e { fail(format!("chunk pull reported the end although position {} is undelivered", b)); } }
+                }
+            }
+            Op::Values | Op::Ids => {
+                let (b, e) = m.pull(1);
+                let r: Option<(Option<usize>, C::Item)> = if matches!(op, Op::Values) { i.values().next().map(|v| (None, v)) } else { i.ids_and_values().next().map(|(k, v)| (Some(k), v)) };
+                match r {
+                    Some((k, v)) => { if b >= e { fail(format!("the for-loop adaptor delivered {:?} although the cursor model is past the end (position {})", v, b)); }
+                                      if k.map(|k| k != b).unwrap_or(false) || pos(&v) != b { fail(format!("the for-loop adaptor delivered idx {:?} value@{} but the cursor model expects position {}", k, pos(&v), b)); }
+                                      m.delivered[b] = true; if consuming { std::mem::forget(v); } }
+                    None => if b < e { fail(format!("the for-loop adaptor reported the end although position {} is undelivered", b)); }
+                }
+            }
+            Op::ChunkFold(n, take) => {
+                let (b, e) = m.pull(*n);
+                match i.next_chunk(*n) {
+                    Some(ch) => {
+                        if b >= e { fail(format!("chunk pull returned a chunk (begin {}) although the cursor model is past the end", ch.begin_idx)); }
+                        if ch.begin_idx != b { fail(format!("chunk begins at {} but the cursor model expects {}", ch.begin_idx, b)); }
+                        let mut vals = ch.values;
+                        let mut k = 0;
+                        while k < *take && k < e - b { if let Some(v) = vals.next() { if pos(&v) != b + k { fail(format!("chunk element {} is source position {} instead of {}", k, pos(&v), b + k)); } m.delivered[b + k] = true; if consuming { std::mem::forget(v); } } k += 1; }
+                        let delivered = &mut m.delivered;
+                        let cnt = vals.fold(k, |j, v| { if j >= e - b { fail(format!("internal iteration over the chunk yields more elements than it announced ({:?})", v)); }
+                                                         if pos(&v) != b + j { fail(format!("internal iteration over the chunk yields source position {} where {} is expected", pos(&v), b + j)); }
+                                                         delivered[b + j] = true; if consuming { std::mem::forget(v); } j + 1 });
+                        if cnt != e - b { fail(format!("next() + internal iteration yield {} of the {} elements of the chunk", cnt, e - b)); }
+                    }
+                    None => if b < e { fail(format!("chunk pull reported the end although position {} is undelivered", b)); }
                 }
             }
             Op::Skip => { i.skip_to_end(); if m.cur < m.len as u128 { if m.skipped_at.is_none() { m.skipped_at = Some(m.cur as usize); } m.cur = m.len as u128; } if i.has_more() != HasMore::No { fail("has_more is not No after skip_to_end".into()); } }
@@ -134,13 +164,17 @@ fn run_scenario(args: &HashMap<String, String>) -> Result<(), String> {
         // (cumulative requested count, where skip_to_end counts as jumping to the end of the source)
         let len = match kind.as_str() { "range" => num("e", 3).saturating_sub(num("s", 0)), "array" => 3, _ => num("len", 3).min(MAXLEN) };
         let mut cur = if kind == "iter" { c.min(16) as u128 } else { c as u128 };
-        for o in &ops { match o { Op::Next => cur += 1, Op::Chunk(n, _) | Op::Buffered(n, _) => cur += *n as u128, Op::Skip => if cur < len as u128 { cur = len as u128 }, _ => {} } }
+        for o in &ops { match o { Op::Next | Op::Values | Op::Ids => cur += 1, Op::Chunk(n, _) | Op::Buffered(n, _) | Op::ChunkFold(n, _) => cur += *n as u128, Op::Skip => if cur < len as u128 { cur = len as u128 }, _ => {} } }
         if cur > usize::MAX as u128 { return Ok(()); }
     }
     let r = std::panic::catch_unwind(|| {
         match kind.as_str() {
             "slice" => { let len = num("len", 3).min(MAXLEN); let data: Vec<usize> = (0..len).collect(); let it = data.con_iter(); it.counter().store(c);
                          let mut m = Model { cur: c as u128, len, delivered: vec![false; MAXLEN], owned_from: 0, skipped_at: None }; run(it, &mut m, &ops, |v: &&usize| **v, false); }
+            "cloned" => { use orx_concurrent_iter::IntoCloned; let len = num("len", 3).min(MAXLEN); let data: Vec<usize> = (0..len).collect(); let it = data.con_iter().cloned(); { use orx_concurrent_iter::iter::atomic_iter::AtomicIter; it.counter().store(c); }
+                          let mut m = Model { cur: c as u128, len, delivered: vec![false; MAXLEN], owned_from: 0, skipped_at: None }; run(it, &mut m, &ops, |v: &usize| *v, false); }
+            "copied" => { use orx_concurrent_iter::IntoCopied; let len = num("len", 3).min(MAXLEN); let data: Vec<usize> = (0..len).collect(); let it = data.con_iter().copied(); { use orx_concurrent_iter::iter::atomic_iter::AtomicIter; it.counter().store(c); }
+                          let mut m = Model { cur: c as u128, len, delivered: vec![false; MAXLEN], owned_from: 0, skipped_at: None }; run(it, &mut m, &ops, |v: &usize| *v, false); }
             "range" => { let s = num("s", 0); let e = num("e", 3); let len = e.saturating_sub(s); let it = (s..e).con_iter(); it.counter().store(c);
                          let mut m = Model { cur: c as u128, len, delivered: vec![false; MAXLEN], owned_from: 0, skipped_at: None };
                          run_range(it, &mut m, &ops, s); }
@@ -168,7 +202,7 @@ fn sweep(kinds: &[&str], nowrap: bool) -> Option<(String, String)> {
     const M: usize = usize::MAX;
     let ns = [1usize, 2, 3, 4, M / 2, M - 1, M, 0];
     let cs = [0usize, 1, 2, 3, 4, M - 1, M];
-    let mut pulls: Vec<String> = vec!["next".into(), "skip".into(), "len".into()];
+    let mut pulls: Vec<String> = vec!["next".into(), "skip".into(), "len".into(), "values".into(), "ids".into(), "chunkfold:3:1".into(), "chunkfold:2:0".into()];
     for n in ns { for take in ["0", "1", "MAX"] { pulls.push(format!("chunk:{}:{}", n, take)); if n > 0 { pulls.push(format!("buffered:{}:{}", n, take)); } } }
     let fins = ["drop", "seq", "next,len,drop"];
     for kind in kinds {
@@ -178,7 +212,7 @@ fn sweep(kinds: &[&str], nowrap: bool) -> Option<(String, String)> {
             _ => (0..4).map(|l| format!("len={}", l)).collect(),
         };
         for shape in &shapes { for c in cs { if *kind == "iter" && c > 4 { continue; }
-            for p1 in &pulls { for p2 in pulls.iter().take(12).chain(std::iter::once(&String::new())) { for fin in fins {
+            for p1 in &pulls { for p2 in pulls.iter().take(16).chain(std::iter::once(&String::new())) { for fin in fins {
                 let ops = if p2.is_empty() { format!("{},{}", p1, fin) } else { format!("{},{},{}", p1, p2, fin) };
                 // wrapped iterators allocate chunk_size slots for buffered pulls (documented): sizes <= 4096 only (C16's domain)
                 if *kind == "iter" && ops.contains("buffered:") && ops.split(',').any(|o| o.starts_with("buffered:") && o.split(':').nth(1).map(|n| n.len() > 4).unwrap_or(false)) { continue; }
@@ -234,6 +268,17 @@ fn run_range(it: ConIterOfRange<usize>, m: &mut Model, ops: &[Op], s: usize) {
                          if k < m.len { if r.start != s + k || r.end != s + m.len { fail(format!("into_seq_iter = {:?}, expected {}..{}", r, s + k, s + m.len)); } }
                          else if r.start < r.end { fail(format!("into_seq_iter = {:?} although nothing remains", r)); } }
             Op::DropIt => { drop(it.take()); }
+            // the for-loop adaptors / internal iteration over a range: one position each, value = start + position
+            Op::Values | Op::Ids => { let (b, e) = m.pull(1);
+                let r = if matches!(op, Op::Values) { i.values().next().map(|v| (b, v)) } else { i.ids_and_values().next() };
+                if b < e { if r != Some((b, s + b)) { fail(format!("the for-loop adaptor delivered {:?}, the cursor model expects ({}, {})", r, b, s + b)); } }
+                else if r.is_some() { fail(format!("the for-loop adaptor delivered {:?} although the cursor model is past the end", r)); } }
+            Op::ChunkFold(n, _) => { let (b, e) = m.pull(*n);
+                let r = i.next_chunk(*n).map(|c| (c.begin_idx, c.values.fold((0usize, 0u128), |(k, acc), v| (k + 1, acc + v as u128))));
+                let want: u128 = (b..e.min(b.saturating_add(8))).map(|p| (s + p) as u128).sum();
+                if b < e { match r { Some((bi, (k, acc))) => { if bi != b || k != e - b || (e - b <= 8 && acc != want) { fail(format!("range chunk folds to (begin {}, count {}, sum {}), the cursor model expects begin {} count {}", bi, k, acc, b, e - b)); } }
+                                     None => fail(format!("range chunk pull reported the end although position {} is undelivered", b)) } }
+                else if r.is_some() { fail("range chunk returned a chunk although the cursor model is past the end".into()); } }
         }
     }
 }
